@@ -45,6 +45,7 @@ fn registry() -> Vec<&'static dyn Scenario> {
     v.extend(c11_dups::scenarios());
     v.extend(c19_reshard::scenarios());
     v.extend(crate::protocol::context::verif_h3::scenarios());
+    v.extend(crate::protocol::dp::verif_h4::scenarios());
     v
 }
 
